@@ -38,7 +38,8 @@ def bounds(tier):
     return dict(tier=tier, config_vectors=27, config_dialect_vectors=1 + len(_vectors(tier == "thorough")),
                 call_dialect_vectors=len(_vectors(tier == "thorough")), flag_subsets=8, sort_keys=2,
                 lazy="subset" if tier == "quick" else "all", inner_kinds=["plain", "mixin-own-options"],
-                instances=len(_instances(None, None)) if False else 72)
+                instances=len(_instances(None, None)) if False else 72,
+                self_nested=dict(spellings=list(SELF_SPELLINGS), trees=7, positions=["Optional", "List", "Dict value"]))
 
 
 def units(tier):
